@@ -67,9 +67,16 @@ def first_diff(schema: dict, a: dict, b: dict, path: str = "") -> tuple[str, str
 
 def case_summary(c: dict) -> dict:
     return {"id": c["id"], "mode": c["mode"], "sid": c["sid"],
-            "wire_bytes": sum(e["n"] for e in c["wev"] if e["op"] == "w") or sum(n for _, n in c["input"]),
+            "wire_bytes": sum(e["n"] for e in c["wev"] if e["op"] == "w") or project.blen(c["input"]),
             "write_calls": len(c["wev"]), "read_calls": len(c["rev"]),
             "wout": c["wout"], "rout": c["rout"]}
+
+
+def corrupt_babs(a: dict) -> None:
+    if "raw" in a:
+        a["raw"][0] ^= 0x01
+    else:
+        a["rle"][0][0] ^= 0x01
 
 
 def make_canary(case: dict, kind: str) -> dict | None:
@@ -79,7 +86,7 @@ def make_canary(case: dict, kind: str) -> dict | None:
     if kind == "chunk":
         for e in c["wev"]:
             if e["op"] == "w" and e["n"] > 0:
-                e["d"][0][0] ^= 0x01
+                corrupt_babs(e["d"])
                 return c
     elif kind == "readsize":
         for e in c["rev"]:
@@ -380,8 +387,8 @@ def validate_rw(chk: Check, per_class: int, props: set[str], ms_timestamps: bool
                 canaries.append(cc)
         cc = copy.deepcopy(donor)
         cc["id"] = "canary_input"
-        if cc["input"]:
-            cc["input"][-1][0] ^= 0x80
+        if project.blen(cc["input"]):
+            corrupt_babs(cc["input"])
             canaries.append(cc)
         shard0["cases"].extend(canaries)
         codec_driver.write_shard(infos[0]["path"], shard0["schemas"], shard0["cases"])
@@ -410,7 +417,7 @@ def validate_rw(chk: Check, per_class: int, props: set[str], ms_timestamps: bool
             chk.distinct((c["sid"], json.dumps(c["value"], sort_keys=True)[:2000], json.dumps(c["var"])))
             if len(chk.cov["samples"]) < 2 and c["var"]["unk"]:
                 chk.sample({"case": case_summary(c), "variant": c["var"], "value": c["value"],
-                            "input_runs": c["input"][:100]})
+                            "input": c["input"]})
             f = f & wanted
             if not f:
                 continue
@@ -522,7 +529,7 @@ def check_C06(chk: Check, replay: str | None) -> None:
             for p in c["probes"][:: max(1, len(c["probes"]) // 50)]:
                 chk.distinct((c["sid"], c["id"], p["k"]))
             if len(chk.cov["samples"]) < 2:
-                chk.sample({"sid": c["sid"], "value": c["value"], "encoding_runs": c["enc"][:40],
+                chk.sample({"sid": c["sid"], "value": c["value"], "encoding": c["enc"],
                             "probes": c["probes"][:6]})
             f = verdicts[c["id"]]["fails"]
             if not f:
@@ -533,7 +540,7 @@ def check_C06(chk: Check, replay: str | None) -> None:
                 p = c["probes"][x["p"] - 1]
                 chk.violation(f"{x['c']}:{p['exc'] or p['out']}",
                               f"{c['sid']} case {c['id']}: prefix of {p['k']} bytes (of "
-                              f"{sum(n for _, n in c['enc'])}) -> {p['out']} {p['exc']} consumed={p['consumed']}",
+                              f"{project.blen(c['enc'])}) -> {p['out']} {p['exc']} consumed={p['consumed']}",
                               {"kind": "trunc", "sid": c["sid"], "value": c["value"], "k": p["k"]})
     chk.cov["distinct_nontrivial"] = chk.cov["evaluations"]
 
@@ -565,7 +572,7 @@ def check_C10(chk: Check, replay: str | None) -> None:
         out.append(cc)
         cc = copy.deepcopy(donor)
         cc["id"] = "canary_reads"
-        cc["probes"][0]["reads"] = 3 * sum(n for _, n in cc["probes"][0]["b"]) + 10
+        cc["probes"][0]["reads"] = 3 * project.blen(cc["probes"][0]["b"]) + 10
         out.append(cc)
         return out
 
@@ -583,7 +590,7 @@ def check_C10(chk: Check, replay: str | None) -> None:
                 key = p["out"] if p["out"] != "raised" else p["mro"][0]
                 outcomes[key] = outcomes.get(key, 0) + 1
             if len(chk.cov["samples"]) < 2:
-                chk.sample({"sid": c["sid"], "valid_encoding_runs": c["enc"][:40],
+                chk.sample({"sid": c["sid"], "valid_encoding": c["enc"],
                             "probes": [{k: p[k] for k in ("b", "out", "mro", "consumed", "reads")}
                                        for p in c["probes"][:5]]})
             f = verdicts[c["id"]]["fails"]
@@ -594,7 +601,7 @@ def check_C10(chk: Check, replay: str | None) -> None:
             for x in f[:3]:
                 p = c["probes"][x["p"] - 1]
                 chk.violation(f"{x['c']}:{(p['mro'] or [p['out']])[0]}",
-                              f"{c['sid']} case {c['id']}: input {project.unruns(p['b']).hex()[:160]} -> "
+                              f"{c['sid']} case {c['id']}: input {project.unbabs(p['b']).hex()[:160]} -> "
                               f"{p['out']} {p['exc']} consumed={p['consumed']} reads={p['reads']}",
                               {"kind": "mut", "sid": c["sid"], "input": p["b"]})
     chk.notes.append(f"{n} classes; outcome histogram {outcomes}; {ncan} canaries rejected")
